@@ -1,6 +1,7 @@
 /-
-  C06 for grid at the tree level.  `AlgAbsBlind gridAlg` is false (Props/EvalGridAbs.lean), so the evaluator-level
-  theorem cannot be instantiated with `gridAlg` directly.  Instead:
+  C06 for grid at the tree level, first part (`auto` lines).  `AlgAbsBlind gridAlg` is false (Props/EvalGridAbs.lean: an
+  absolutely positioned child's lines can make the container panic), so the evaluator-level theorem cannot be
+  instantiated with `gridAlg` directly.  Instead (continued in Lemmas/GridAbsCalm.lean for containers that cannot panic):
     * `gridAlgN` = `gridAlg` on the child styles with the grid lines of absolutely positioned children reset to `auto`;
       it IS `AlgAbsBlind` (from `GridAbs.gridAlg_absEquiv`);
     * on a tree in which every absolutely positioned child of a grid container has `auto` lines in both axes
@@ -16,12 +17,6 @@ set_option linter.unusedSectionVars false
 namespace GridAbs
 open GridModel Eval EvalBlock C06 Gen.Facts
 variable {α : Type} [Num α] [GridTracks.NumCast α] {C : Type}
-
-abbrev autoLine : Line GridPlacement.Placement := ⟨.auto, .auto⟩
-
-/-- every absolutely positioned box of the list has `auto` grid lines in both axes -/
-def AbsAutoLines (cs : List (Style α)) : Prop :=
-  ∀ s ∈ cs, absVis s → s.grid.row = autoLine ∧ s.grid.column = autoLine
 
 /-- decidable form -/
 def absAutoLinesB (cs : List (Style α)) : Bool :=
